@@ -6,6 +6,7 @@ import ErgoProofs.Lemmas.ProgramThm
 import ErgoProofs.Lemmas.ProcBytesThm
 import ErgoProofs.Lemmas.LockFileThm
 import ErgoProofs.Lemmas.FilesThm
+import ErgoProofs.Lemmas.DiskConc
 namespace Ergo
 open Proc
 
@@ -169,5 +170,18 @@ theorem C02_truncating_init_lost_an_acknowledged_batch :
 theorem C02_program_open_flags (p : List Program.Call)
     (h : Program.writerOK p = true ∨ Program.busyOK p = true ∨ Program.readerOK p = true) : ∀ c ∈ p, c ≠ .openBad :=
   Program.open_flags_kept p h
+
+/-- serializable on the bytes, hence every invariant of serial runs on the bytes: whatever the interleaving of ergo's own commands in the
+    byte-level process system and whoever dies between two calls, the file under the log's name reads back (real line format) to a log that
+    replays to a graph with the state/claim, dependency and epic invariants -/
+theorem C02_bytes_under_every_schedule_keep_the_invariants (f : Storage.Bytes) (log0 : List Event) (envs : List (Env × Sec)) (nr limit : Nat)
+    (ets : Event → String) (hf : Storage.readEvents Codec.classifyLine limit f = .ok log0) (hfw : Codec.AllWf log0) (h0 : SecReach log0)
+    (hok : ∀ es ∈ envs, SecOK es.1 es.2) (hT : ∀ es ∈ envs, Codec.EnvT es.1)
+    (s : ProcB.BSys) (h : ProcB.BReachableNT (ProcB.BSys.init f (envs.map fun (es : Env × Sec) => secDecide es.1 es.2) nr limit ets) s)
+    (hclock : ∀ (i p : Nat) (snap : List Event) (w : Write) (g : Graph), s.commits[i]? = some (p, snap, w) → replayRaw snap = .ok g →
+               ∀ es : Env × Sec, envs[p]? = some es → EnvOK g es.1) :
+    ∃ L g, Storage.readEvents Codec.classifyLine limit s.file = .ok L ∧ replayRaw L = .ok g ∧ Inv06 g ∧ Inv07 g ∧ Inv14 g := by
+  obtain ⟨L, g, hl, hg, hinv⟩ := ProcB.conc_disk_allInv f log0 envs nr limit ets hf hfw h0 hok hT s h hclock
+  exact ⟨L, g, hl, hg, hinv.i06, hinv.i07, hinv.i14⟩
 
 end Ergo
